@@ -55,7 +55,9 @@ def run(ctx):
     for rk in ('rsa', 'cv25519', 'ecdh256', 'ecdh384', 'pw'):
         for ci, cipher in enumerate(ciphers if not ctx.quick else ciphers[:3]):
             for rep in range(reps if ci == 0 else max(3, reps // 4)):
-                m = pgpy.PGPMessage.new(msg_bytes, compression=CompressionAlgorithm.Uncompressed, format='b')
+                if rep % 3 != 2 or rep == 0:
+                    m = pgpy.PGPMessage.new(msg_bytes, compression=CompressionAlgorithm.Uncompressed, format='b')
+                # (every third operation encrypts the SAME plaintext message object again: nothing may be remembered on it)
                 if rep % 2:
                     # environment step: the application re-seeds Python's non-cryptographic generator to the same constant before
                     # every other operation; secret values must not be a function of that state
